@@ -348,6 +348,26 @@ def r114(prog, chk):
 def r115(prog, chk):
     ix = prog.ix
     f = ix.get_method(PP, "_build_production_name", own=True)
+    # the naming rules may live in a helper method the entry point hands the glyph to: follow `return self.<helper>(glyph)`
+    entry = f
+    for _hop in range(3):
+        if any("04X" in T(r.value) for r in A.returns_of(f.node) if r.value is not None):
+            break
+        nxt = None
+        for r in A.returns_of(f.node):
+            okr, _b = every_origin(prog, f, r.value, lambda x, ff: isinstance(x, ast.Call) and isinstance(x.func, ast.Attribute) and isinstance(x.func.value, ast.Name) and x.func.value.id == "self"
+                                   and len(x.args) == 1 and isinstance(x.args[0], ast.Name) and x.args[0].id == ff.params()[1], allow_const=False) if r.value is not None else (False, None)
+            need(okr, f"cannot interpret {entry.short}: `{T(r, 60)}` is neither a naming rule nor the answer of a helper given the glyph")
+            for c in ast.walk(r.value):
+                if isinstance(c, ast.Call) and isinstance(c.func, ast.Attribute) and T(c.func.value) == "self":
+                    nxt = c.func.attr
+            for d in (prog.reaching(f, r.value.id, r.value) if isinstance(r.value, ast.Name) else []):
+                if d.value is not None:
+                    for c in ast.walk(d.value):
+                        if isinstance(c, ast.Call) and isinstance(c.func, ast.Attribute) and T(c.func.value) == "self":
+                            nxt = c.func.attr
+        need(nxt is not None, f"cannot interpret {entry.short}: no naming rule found")
+        f = ix.get_method(PP, nxt)
     g = f.params()[1]
     rets = A.returns_of(f.node)
     # lib names win
